@@ -387,6 +387,10 @@ class Translator:
         if isinstance(node.value, ast.Name) and node.value.id in env:
             x = env[node.value.id]
             f = self.spec.get("attr_funcs", {}).get((x.typ, node.attr))
+            g = self.spec.get("attr_guards", {}).get((x.typ, node.attr))
+            if f is not None and g is not None:
+                # an attribute only some classes of this object have: AttributeError where the spec's guard says it is absent
+                return V(self.hoist(f"PyRt.guardE PyRt.Err.attr ({g} {x.term}) ({f[0]} {x.term})", f[1], node), f[1])
             if f is not None:
                 return V(f"({f[0]} {x.term})", f[1])
         elif self.spec.get("attr_funcs") and not isinstance(node.value, ast.Name):
@@ -1232,7 +1236,24 @@ class Translator:
             return env, f"let {lname(ln)}' : {ty(typ)} := {term}"
         self.bad(node, "assignment target is neither a local name nor a place of the spec")
 
+    def stmt_update(self, st, rest, env, frame):
+        """spec `stmt_updates` {statement text: field updates}: an assignment the spec maps to updates of the state record (a dict
+        emptied = none of its entries present …); `{st}` in the text is the current state"""
+        upd = self.spec.get("stmt_updates", {}).get(self.key(st))
+        if upd is None or self.state is None:
+            return None
+        cur = env["__st"]
+        env2 = dict(env)
+        env2["__st"] = V("st'", cur.typ)
+        line = f"let st' : {ty(cur.typ)} := {{ {cur.term} with {upd.format(st=cur.term)} }}" if upd else None
+        if line is None:
+            return self.block(rest, env, frame)
+        return line + "\n" + self.block(rest, env2, frame)
+
     def s_Assign(self, st, rest, env, frame):
+        su = self.stmt_update(st, rest, env, frame)
+        if su is not None:
+            return su
         if len(st.targets) > 1 and all(isinstance(t, ast.Name) for t in st.targets):
             # `a = b = e`: `e` is evaluated once, then bound left to right
             first = ast.Assign(targets=[st.targets[0]], value=st.value)
@@ -1346,7 +1367,12 @@ class Translator:
             if c["kind"] == "method":
                 recv = self.read_place(c["recv"], env, call, raw=True)
                 if not recv.typ.startswith("Option "):
-                    self.bad(call, "a method receiver place whose type is not Option")
+                    # an object that is always there
+                    d = self.fresh("py_d")
+                    env2, line = self.bind(place_node(c["recv"]), V(d + "'", recv.typ), env, call)
+                    term = " ".join([c["lean"], recv.term] + args)
+                    return (f"PyRt.tryR ({term}) (fun py_e {d}' =>\n" + ind(line + "\n" + frame.raise_('py_e', env2), 4)
+                            + f") (fun {vn} {d}' =>\n" + ind(line + "\n" + k(value(vn), env2)) + ")")
                 xt = elem_type(recv.typ)
                 d = self.fresh("py_d")
                 env2, line = self.bind(place_node(c["recv"]), V(d + "'", xt), env, call)
@@ -1427,6 +1453,9 @@ class Translator:
         return self.with_hoists(hs, env, frame, inner)
 
     def s_AnnAssign(self, st, rest, env, frame):
+        su = self.stmt_update(st, rest, env, frame)
+        if su is not None:
+            return su
         if st.value is None:
             return self.block(rest, env, frame)
         return self.s_Assign(ast.copy_location(ast.Assign(targets=[st.target], value=st.value), st), rest, env, frame)
@@ -1535,7 +1564,10 @@ class Translator:
             def inner_add():
                 cur = self.read_place(pk, env, st)
                 typ = self.places[pk][2]
-                new = V(f"(PyRt.setAdd {cur.term} {self.coerce(v, elem_type(typ), st)})", typ)
+                if v.typ == "Option " + elem_type(typ):
+                    new = V(f"(PyRt.setAddO {cur.term} {v.term})", typ)
+                else:
+                    new = V(f"(PyRt.setAdd {cur.term} {self.coerce(v, elem_type(typ), st)})", typ)
                 env2, line = self.bind(c0.func.value, new, env, st)
                 return line + "\n" + self.block(rest, env2, frame)
             return self.with_hoists(hs, env, frame, inner_add)
@@ -1776,7 +1808,10 @@ class Translator:
 
     def assigned(self, stmts, acc):
         for s in stmts:
-            if isinstance(s, (ast.Assign, ast.AugAssign, ast.AnnAssign)):
+            if isinstance(s, (ast.Assign, ast.AnnAssign)) and self.key(s) in self.spec.get("stmt_updates", {}):
+                if "__st" not in acc:
+                    acc.append("__st")
+            elif isinstance(s, (ast.Assign, ast.AugAssign, ast.AnnAssign)):
                 for t in (s.targets if isinstance(s, ast.Assign) else [s.target]):
                     if isinstance(t, ast.Subscript) and isinstance(t.value, ast.Name) and self.key(t) not in self.places:
                         t = t.value
